@@ -5,6 +5,8 @@ from ..proto import f2b, b, oi, ob
 from . import soil_profile as sp
 
 NAME = "init_wc"
+QUICK_N = 120      # each call is a full model initialisation
+THOROUGH_N = 3000
 TYPES = {"Num": 0, "Pct": 1, "Prop": 2}
 PROPS = {"WP": 0, "FC": 1, "SAT": 2}
 
